@@ -306,9 +306,8 @@ def classify(wire, lp_mode='lib'):
                 lp = tlvref.parse_lp(wire)
             except tlvref.TlvError:
                 return _classify(wire)
-            if lp.frag_index in (None, 0) and lp.frag_count == 1:
-                return {'kind': 'unclear', 'why': 'fragment 0 of 1'}      # an unfragmented packet that says so
-            if lp.frag_index is not None or lp.frag_count is not None:
+            # (FragIndex 0 and FragCount 1 are the values an unfragmented packet has anyway: spelling them out changes nothing)
+            if not (lp.frag_index in (None, 0) and lp.frag_count in (None, 1)):
                 return {'kind': 'junk', 'why': 'fragmented'}
             if not lp.in_order:
                 return {'kind': 'junk', 'why': 'headers-out-of-order'}
@@ -331,9 +330,7 @@ def classify(wire, lp_mode='lib'):
             # (FragIndex or FragCount present) addresses nothing
             try:
                 lp = tlvref.parse_lp(wire)
-                if lp.frag_index in (None, 0) and lp.frag_count == 1:
-                    return {'kind': 'unclear', 'why': 'fragment 0 of 1'}      # an unfragmented packet that says so
-                if lp.frag_index is not None or lp.frag_count is not None:
+                if not (lp.frag_index in (None, 0) and lp.frag_count in (None, 1)):
                     return {'kind': 'junk', 'why': 'fragmented'}
                 if lp.in_order and lp.repeated_single:
                     return {'kind': 'unclear', 'why': 'repeated header'}
@@ -982,7 +979,15 @@ class PipeWorld(World):
     def _start(self):
         self.main_task = self.spawn(self.app.main_loop())
         if self.fe == 'v1' and self.scenario.get('app_int_validator') is not None:
-            self.app.int_validator = self.make_validator(self.scenario['app_int_validator'], ('appdefault',))
+            def install():
+                self.app.int_validator = self.make_validator(self.scenario['app_int_validator'], ('appdefault',))
+                self.log('appval-set')
+            if self.scenario.get('app_int_validator_at') is not None:
+                # the application tightens its default Interest validator while routes are already installed
+                self.after(self.scenario['app_int_validator_at'], install)
+                self.stats['fault.default_validator_replaced_later'] += 1
+            else:
+                install()
 
     def _finish(self):
         self.log('final', pit=self.pit_len(), running=bool(self.face.running))
